@@ -78,6 +78,17 @@ add(
     "DESIGN.md §4 C04",
 )
 
+add(
+    "C06", "exploration",
+    "Hypothesis over (identifier class x use x source x provision) triples drawn from the whole bundled SPDX list, ~40 triples per lint run; reference inventory model (set algebra)",
+    "About 60 000 (identifier, use, provision) triples per quick run, every identifier of the bundled licence and exception lists at least once, "
+    "LicenseRef-, unknown and wrong-case names, used alone / with '+' / inside AND, OR, WITH, parentheses / in two files, carried by headers, "
+    ".license files, REUSE.toml or dep5, provided as ID.txt, ID.md, ID, sub/ID.txt, ID+.txt or not at all; the five JSON collections, "
+    "summary.used_licenses and the exit status must equal the model's.",
+    "Trusts vlib/ref/inventory.py and the bundled SPDX JSON as domain data; one provider per identifier.",
+    "DESIGN.md §4 C06",
+)
+
 NOT_BUILT = "check not built yet in this revision of /verif (planned in DESIGN.md §4; property-based testing applies)"
 
 
